@@ -312,6 +312,7 @@ def ex1 : List NdArr :=
   [⟨.i64, [1, 2], [.i 1, .i 2]⟩, ⟨.i64, [0, 3], []⟩, ⟨.i64, [2, 1], [.i (-7), .i 9]⟩]
 example : (serializeVlen ex1).isOk = true := by decide
 example : ∀ e ∈ ex1, e.WF := by decide
+example : Homogeneous ex1 := by unfold Homogeneous; decide
 example : (encode ex1).rows = [(0, [1, 2]), (2, [0, 3]), (2, [2, 1])] ∧ (encode ex1).data.length = 4 := by decide
 /-- rank-0 elements: table of width 1 -/
 example : (serializeVlen [⟨.f64, [], [.f "3ff0000000000000"]⟩, ⟨.f64, [], [.f "4004000000000000"]⟩]).isOk = true := by
@@ -332,6 +333,10 @@ example : constructVarLenProps ex2 = .ok
     ([⟨.i16, [1, 2], [.i 1, .i 0]⟩, ⟨.i16, [1, 2], [.i (-3), .i 4]⟩, ⟨.i16, [0, 0], []⟩, ⟨.i16, [1, 1], [.i 200]⟩],
      [false, false, true, false]) := by decide
 example : ex2.Perm ex2.reverse := (List.reverse_perm ex2).symm
+example : ∀ a, Item.arr a ∈ ex2 → a.WF := by
+  intro a h
+  simp only [ex2, List.mem_cons, Item.arr.injEq, List.not_mem_nil, or_false, reduceCtorEq, false_or] at h
+  rcases h with rfl | rfl | rfl <;> decide
 example : getCommonTypeDims ex2.reverse = .ok (.i16, 2) := by decide
 /-- the pre-repair failure D8: [float, int] — both orders give float64 -/
 example : getCommonTypeDims [.arr ⟨.f64, [1], [.f "4004000000000000"]⟩, .arr ⟨.i64, [1], [.i 1]⟩] = .ok (.f64, 1) ∧
